@@ -168,9 +168,27 @@ def parseProgram (j : Json) : Except String Program := do
     | .save => perNode "save" n
     | .pstart => (getNat? cbj "pstart").getD 0
     | .pcomplete => (getNat? cbj "pcomplete").getD 0
+  -- failing collaborators: spec.cbraise = {"nstart": {"3": "E0"}, "ncomplete": {...}, "save": {...}, "pstart": "E1", ...}
+  let crj := (sj.getObjVal? "cbraise").toOption.getD (Json.mkObj [])
+  let raiseNode (key : String) (n : Node) : Option Exc :=
+    match crj.getObjVal? key with
+    | .ok o => match (o.getObjValAs? String (toString n)).toOption with
+      | some cls => some ⟨cls, n, 0, 0⟩
+      | none => none
+    | _ => none
+  let raiseTop (key : String) : Option Exc :=
+    match (crj.getObjValAs? String key).toOption with
+    | some cls => some ⟨cls, 0, 0, 0⟩
+    | none => none
+  let cr : Cb → Node → Option Exc := fun k n => match k with
+    | .nstart => raiseNode "nstart" n
+    | .ncomplete => raiseNode "ncomplete" n
+    | .save => raiseNode "save" n
+    | .pstart => raiseTop "pstart"
+    | .pcomplete => raiseTop "pcomplete"
   return { g := g, cfg := cfgOf, body := fun n kw inv att => bodyOf (cfgOf n) (bsOf n) n kw inv att,
            dflt := fun n kw => .str (prov ((cfgOf n).name ++ ".default") kw), inputKw := ik,
-           poolsOk := !(getBoolD j "pools_missing"), cbYield := cb }
+           poolsOk := !(getBoolD j "pools_missing"), cbYield := cb, cbRaise := cr }
 
 /-! ### lock-step -/
 
